@@ -57,6 +57,7 @@ class TermModel:
         self.last_dsr = None          # zero-based (row, col) most recently reported
         self._st = 0                  # parser state: 0 ground, 1 esc, 2 csi, 3 esc-intermediate
         self._buf = ""
+        self.autowrap = True          # DECAWM
         self.el_in_pending = 0        # probe: EL executed while pending wrap
         self.wraps = 0                # probe: autowrap happened
 
@@ -135,8 +136,10 @@ class TermModel:
                     self._c0(ch)   # C0 inside CSI executes
             else:  # st == 3
                 self._st = 0
-                if self._buf in "()*+":
-                    pass  # charset designation: ignored (only ASCII is printed)
+                if self._buf in "()*+" and ch == "B":
+                    pass  # designating US-ASCII: nothing changes
+                elif self._buf in "()*+":
+                    self.unknown.append("charset designation ESC %s %s" % (self._buf, ch))   # (e.g. DEC graphics)
                 else:
                     self.unknown.append("ESC " + self._buf + ch)
 
@@ -183,7 +186,7 @@ class TermModel:
         fg, bg, stl = self.pen
         self.screen[self.r][self.c] = (ch, fg, bg, stl)
         if self.c >= self.w - 1:
-            self.pending = True
+            self.pending = self.autowrap      # (autowrap off: further characters overwrite the last column)
         else:
             self.c += 1
 
@@ -232,7 +235,7 @@ class TermModel:
         elif ch == "M":
             self._rindex()
         elif ch == "c":
-            self.__init__(self.h, self.w, self.reply, self.onlcr, self.c1_reply)
+            self.unknown.append("RIS")
         elif ch in "=>":
             pass  # keypad modes
         else:
@@ -292,9 +295,12 @@ class TermModel:
                             self._save()
                         else:
                             self._restore()
-                    elif m in (1, 12, 1000, 1002, 1003, 1004, 1005, 1006, 1015, 2004, 7, 2026):
-                        if m == 7 and not on:
-                            self.unknown.append("autowrap off")
+                    elif m == 7:
+                        self.autowrap = on
+                        if not on:
+                            self.pending = False
+                    elif m in (1, 12, 1000, 1002, 1003, 1004, 1005, 1006, 1015, 2004, 2026):
+                        pass
                     else:
                         self.unknown.append("CSI ?%r%s" % (m, final))
                 return
